@@ -486,11 +486,145 @@ theorem d89_exec (R : Ro) (st : St) (cs : List Child) (ρ : List (String × Int)
 theorem exec_range (R : Ro) (k v : String) (b : Stmt) (f : Nat) (m : M) :
     exec R (.range k v b) f m = rangeN k v (exec R b f) m.cs.length 0 m := rfl
 
-theorem gu_exec (R : Ro) (st : St) (cs : List Child) (ρ : List (String × Int)) (tag : String) (F : Nat)
-    (hdc : R.drawCursor = false) :
+/-! #### the cursor gutter -/
+
+def guL13 : Stmt :=
+  (.loop (.bin "<" (.var "v13") (.var "v1.Size.Height"))
+      (.seq (.atom ⟨2, .exprS, (.arg (.arg (.arg (.call (.var "v1.WriteCell")) (.int 0)) (.var "v13")) (.lit "vaxis.Cell{Character:vaxis.Character{Grapheme:\"\",Width:1}}")), .none⟩)
+      (.seq (.atom ⟨2, .exprS, (.arg (.arg (.arg (.call (.var "v1.WriteCell")) (.int 1)) (.var "v13")) (.lit "vaxis.Cell{Character:vaxis.Character{Grapheme:\"\",Width:1}}")), .none⟩)
+      .skip))
+      (.seq (.atom ⟨3, .addAssign, (.var "v13"), (.int 1)⟩)
+      .skip))
+
+def guL17 : Stmt :=
+  (.loop (.bin "<" (.var "v17") (.var "v15.Surface.Size.Height"))
+        (.seq (.atom ⟨3, .exprS, (.arg (.arg (.arg (.call (.var "v16.WriteCell")) (.int 0)) (.var "v17")) (.lit "vaxis.Cell{Character:vaxis.Character{Grapheme:\"▐\",Width:1}}")), .none⟩)
+        .skip)
+        (.seq (.atom ⟨4, .addAssign, (.var "v17"), (.int 1)⟩)
+        .skip))
+
+def draw14T (L13 L17 : Stmt) : Stmt :=
+  (.ite (.var "d.DrawCursor")
+    (.seq (.atom ⟨1, .varS, (.var "v13"), (.lit "uint16")⟩)
+    (.seq L13
+    (.seq (.atom ⟨1, .define, (.var "v14"), (.bin "-" (.var "d.cursor") (.var "d.scroll.top"))⟩)
+    (.seq (.ite (.bin "&&" (.bin ">=" (.var "d.cursor") (.var "d.scroll.top")) (.bin "<" (.var "v14") (.arg (.call (.var "uint")) (.arg (.call (.var "len")) (.var "v1.Children")))))
+      (.seq (.atom ⟨2, .define, (.var "v15"), (.index (.var "v1.Children") (.var "v14"))⟩)
+      (.seq (.atom ⟨2, .define, (.var "v16"), (.arg (.arg (.arg (.call (.var "vxfw.NewSurface")) (.var "v0.Max.Width")) (.var "v15.Surface.Size.Height")) (.var "v15.Surface.Widget"))⟩)
+      (.seq (.atom ⟨2, .varS, (.var "v17"), (.lit "uint16")⟩)
+      (.seq L17
+      (.seq (.atom ⟨2, .exprS, (.arg (.arg (.arg (.call (.var "v16.AddChild")) (.var "v6")) (.int 0)) (.var "v15.Surface")), .none⟩)
+      (.seq (.atom ⟨2, .define, (.var "v18"), (.arg (.arg (.arg (.call (.var "vxfw.NewSubSurface")) (.int 0)) (.var "v15.Origin.Row")) (.var "v16"))⟩)
+      (.seq (.atom ⟨2, .assign, (.index (.var "v1.Children") (.var "v14")), (.var "v18")⟩)
+      .skip)))))))
+      .skip)
+    .skip))))
+    .skip)
+
+
+theorem draw14_eq : draw14 = draw14T guL13 guL17 := rfl
+
+/-- A counting loop `for ; v < bound; v += 1 { cells only }`: it ends, state and children unchanged. -/
+theorem count_loop (R : Ro) (c : Expr) (body post : Stmt) (st : St) (cs : List Child) (us : List String) (tag : String)
+    (var : String) (bound : Int) (P : List (String × Int) → Prop)
+    (hc : ∀ ρ x, P ρ → lookup ρ var = some x → evB R ⟨st, cs, ρ, us, tag⟩ c = some (decide (x < bound)))
+    (hbody : ∀ f m, exec R body f m = .ok (m, .norm))
+    (hpost : ∀ f ρ x, lookup ρ var = some x → exec R post f ⟨st, cs, ρ, us, tag⟩ = .ok (⟨st, cs, (var, x + 1) :: ρ, us, tag⟩, .norm))
+    (hP : ∀ ρ x, P ρ → P ((var, x) :: ρ)) :
+    ∀ (n : Nat) (x : Int) (ρ : List (String × Int)) (F : Nat), P ρ → lookup ρ var = some x → bound - x ≤ n → n + 1 ≤ F →
+      ∃ ρ', loopN (fun m => evB R m c) (exec R body) (exec R post) F ⟨st, cs, ρ, us, tag⟩ = .ok (⟨st, cs, ρ', us, tag⟩, .norm) ∧ P ρ' := by
+  intro n
+  induction n with
+  | zero =>
+    intro x ρ F hPρ hv hb hF
+    obtain ⟨F', rfl⟩ : ∃ F', F = F' + 1 := ⟨F - 1, by omega⟩
+    have : decide (x < bound) = false := by simp; omega
+    rw [loopN, hc ρ x hPρ hv, this]
+    exact ⟨ρ, rfl, hPρ⟩
+  | succ n ih =>
+    intro x ρ F hPρ hv hb hF
+    obtain ⟨F', rfl⟩ : ∃ F', F = F' + 1 := ⟨F - 1, by omega⟩
+    rw [loopN, hc ρ x hPρ hv]
+    by_cases hlt : x < bound
+    · simp only [hlt, decide_true]
+      rw [hbody]
+      simp only []
+      rw [hpost F' ρ x hv]
+      simp only []
+      exact ih (x + 1) ((var, x + 1) :: ρ) F' (hP ρ _ hPρ) (by simp [lookup]) (by omega) (by omega)
+    · simp only [hlt, decide_false]
+      exact ⟨ρ, rfl, hPρ⟩
+
+def l13c : Expr := match guL13 with | .loop c _ _ => c | _ => .none
+def l13b : Stmt := match guL13 with | .loop _ b _ => b | _ => .skip
+def l13p : Stmt := match guL13 with | .loop _ _ p => p | _ => .skip
+theorem guL13_eq : guL13 = .loop l13c l13b l13p := rfl
+def l17c : Expr := match guL17 with | .loop c _ _ => c | _ => .none
+def l17b : Stmt := match guL17 with | .loop _ b _ => b | _ => .skip
+def l17p : Stmt := match guL17 with | .loop _ _ p => p | _ => .skip
+theorem guL17_eq : guL17 = .loop l17c l17b l17p := rfl
+
+theorem l13_exec (R : Ro) (st : St) (cs : List Child) (ρ : List (String × Int)) (tag : String) (F : Nat) (hF : R.H + 1 ≤ F) :
+    ∃ ρ', exec R guL13 F ⟨st, cs, ("v13", 0) :: ρ, ["v3"], tag⟩ = .ok (⟨st, cs, ρ', ["v3"], tag⟩, .norm) := by
+  obtain ⟨ρ', h, _⟩ := count_loop R l13c l13b l13p st cs ["v3"] tag "v13" (R.H : Int) (fun _ => True)
+    (by intro ρ x _ hv; xs [l13c, guL13, hv])
+    (by intro f m; xs [l13b, guL13])
+    (by intro f ρ x hv; xs [l13p, guL13, hv])
+    (fun _ _ _ => trivial) R.H 0 (("v13", 0) :: ρ) F trivial (by simp [lookup]) (by omega) hF
+  rw [guL13_eq, exec_loop]
+  exact ⟨ρ', h⟩
+
+/-- The facts about the locals that the rest of the gutter block reads after the glyph loop. -/
+def GuP (x : Nat) (c : Child) (ρ : List (String × Int)) : Prop :=
+  lookup ρ "v15.Surface.Size.Height" = some (c.height : Int) ∧ lookup ρ "v15.Origin.Row" = some c.row ∧
+  lookup ρ "v16.Size.Height" = some (c.height : Int) ∧ lookup ρ "v16.Widget" = some (c.idx : Int) ∧
+  lookup ρ "v14" = some (x : Int)
+
+theorem l17_exec (R : Ro) (st : St) (cs : List Child) (ρ : List (String × Int)) (tag : String) (F : Nat) (x : Nat) (c : Child)
+    (hF : c.height + 1 ≤ F) (hP : GuP x c ρ) :
+    ∃ ρ', exec R guL17 F ⟨st, cs, ("v17", 0) :: ρ, ["v14", "v3"], tag⟩ = .ok (⟨st, cs, ρ', ["v14", "v3"], tag⟩, .norm) ∧ GuP x c ρ' := by
+  obtain ⟨ρ', h, hP'⟩ := count_loop R l17c l17b l17p st cs ["v14", "v3"] tag "v17" (c.height : Int) (GuP x c)
+    (by intro ρ y hPρ hv; xs [l17c, guL17, hv, hPρ.1])
+    (by intro f m; xs [l17b, guL17])
+    (by intro f ρ y hv; xs [l17p, guL17, hv])
+    (by intro ρ y hPρ; unfold GuP at *; simpa [lookup] using hPρ) c.height 0 (("v17", 0) :: ρ) F
+    (by unfold GuP at *; simpa [lookup] using hP) (by simp [lookup]) (by omega) hF
+  rw [guL17_eq, exec_loop]
+  exact ⟨ρ', h, hP'⟩
+
+theorem gu_exec (R : Ro) (st : St) (cs : List Child) (ρ : List (String × Int)) (tag : String) (F : Nat) (x : Nat)
+    (hx : usubI ↑st.cursor ↑st.top = ↑x) (hFH : R.H + 1 ≤ F) (hFc : ∀ c ∈ cs, c.height + 1 ≤ F) :
     ∃ ρ' us', exec R draw14 F ⟨st, cs, ρ, ["v3"], tag⟩ = .ok (⟨st, cs, ρ', us', tag⟩, .norm) ∧
       (us' = ["v3"] ∨ us' = ["v14", "v3"]) := by
-  exact ⟨ρ, ["v3"], by xs [draw14, hdc], Or.inl rfl⟩
+  rw [draw14_eq]
+  cases hdc : R.drawCursor
+  · exact ⟨ρ, ["v3"], by xs [draw14T, hdc], Or.inl rfl⟩
+  · obtain ⟨ρb, h13⟩ := l13_exec R st cs ρ tag F hFH
+    by_cases hcond : st.cursor ≥ st.top ∧ x < cs.length
+    · have hxl := hcond.2
+      have hget : cs[x]? = some cs[x] := List.getElem?_eq_getElem hxl
+      have hc1 : (st.top : Int) ≤ st.cursor := by omega
+      have hc2 : (x : Int) < cs.length := by omega
+      have hneg : ¬ ((x : Int) < 0) := by omega
+      have hxl' : ¬ (cs.length ≤ x) := by omega
+      obtain ⟨ρe, h17, hP⟩ := l17_exec R st cs
+        (("v16.Widget", (cs[x].idx : Int)) :: ("v16.Size.Height", (cs[x].height : Int)) :: ("v15.Surface.Widget", (cs[x].idx : Int)) ::
+          ("v15.Surface.Size.Height", (cs[x].height : Int)) :: ("v15.Origin.Row", cs[x].row) :: ("v14", (x : Int)) :: ρb) tag F x cs[x]
+        (hFc _ (List.getElem_mem hxl)) (by unfold GuP; simp [lookup])
+      obtain ⟨p1, p2, p3, p4, p5⟩ := hP
+      refine ⟨("v18.Surface.Widget", (cs[x].idx : Int)) :: ("v18.Surface.Size.Height", (cs[x].height : Int)) ::
+        ("v18.Origin.Row", cs[x].row) :: ρe, ["v14", "v3"], ?_, Or.inr rfl⟩
+      xs [draw14T, hdc, h13, hx, hcond.1, hc1, hc2, hxl, hxl', hneg, hget, h17, p1, p2, p3, p4, p5, setAt]
+      have : ({ idx := cs[x].idx, row := cs[x].row, height := cs[x].height } : Child) = cs[x] := rfl
+      rw [this, List.set_getElem_self]
+    · refine ⟨("v14", (x : Int)) :: ρb, ["v14", "v3"], ?_, Or.inr rfl⟩
+      by_cases h1 : st.cursor ≥ st.top
+      · have hc1 : (st.top : Int) ≤ st.cursor := by omega
+        have h2 : ¬ (x < cs.length) := fun h => hcond ⟨h1, h⟩
+        have hc2 : ¬ ((x : Int) < cs.length) := by omega
+        xs [draw14T, hdc, h13, hx, h1, hc1, h2, hc2]
+      · have hc1 : ¬ ((st.top : Int) ≤ st.cursor) := by omega
+        xs [draw14T, hdc, h13, hx, h1, hc1]
 
 theorem gutter_ok (cfg : Cfg) (cs : List Child) (s : St) : gutter Facts.fixed cfg cs s = .ok () := by
   unfold gutter
@@ -529,7 +663,7 @@ theorem d17_exec (R : Ro) (F : Nat) (m : M) : ∃ vs, exec R (seqOf [draw17]) F 
 
 theorem draw_exec (hs : List Nat) (cfg : Cfg) (s : St) (W H F : Nat)
     (ht : s.top < 2 ^ 64) (hlen : hs.length < 2 ^ 64)
-    (hF : s.top + hs.length + 2 ≤ F) (hdc : cfg.drawCursor = false) :
+    (hF : s.top + hs.length + 2 ≤ F) (hFH : H + 1 ≤ F) (hFh : ∀ h ∈ hs, h + 1 ≤ F) :
     runDraw expBodies (builder hs) cfg s W H F =
       (match draw Facts.fixed cfg hs s W H with
        | .ok r => .ok r
@@ -544,7 +678,6 @@ theorem draw_exec (hs : List Nat) (cfg : Cfg) (s : St) (W H F : Nat)
   have hgap : R.gap = cfg.gap := by rw [← hR]; rfl
   have hH : R.H = H := by rw [← hR]; rfl
   have hW : R.W = W := by rw [← hR]; rfl
-  have hRdc : R.drawCursor = false := by rw [← hR]; exact hdc
   have hcall : R.call "d.insertChildren" = some (insertCallee expBodies (roBase (builder hs) cfg W H)) := by rw [← hR]; rfl
   unfold draw
   by_cases hub : H = 65535 ∨ W = 65535
@@ -594,6 +727,10 @@ theorem draw_exec (hs : List Nat) (cfg : Cfg) (s : St) (W H F : Nat)
       obtain ⟨ρ2, hd7, hv2, hv3⟩ := hsu
       rw [hd7]
       simp only []
+      have hsp := DynList.scrollUp_spec true cfg.gap hs s2 ah1 ah2 s3 cs0 hsc (by unfold U; omega)
+        (fun h => by have := hpp h; omega)
+      have hH1 := (DynList.drawDown_spec cfg.gap s3.wantsCursor s3.cursor (↑H) hs (hs.drop s2.top) s2.top ah2 cs0 rfl
+        hsp.1 hsp.2.1 hsp.2.2.1).2
       -- colOffset
       obtain ⟨ρ3, h89, h89a, h89b⟩ := d89_exec R s3 cs0 ρ2 "" F [draw10, draw11, draw12, draw13, draw14, draw15, draw16, draw17]
       rw [h89]
@@ -608,12 +745,13 @@ theorem draw_exec (hs : List Nat) (cfg : Cfg) (s : St) (W H F : Nat)
       rw [seqOf_cons, draw10_eq, exec_loop, hdd]
       simp only []
       rw [hgap, hH]
-      generalize drawDown cfg.gap s3.wantsCursor s3.cursor (↑H) (List.drop s2.top hs) s2.top ah2 cs0 = cs1
+      generalize drawDown cfg.gap s3.wantsCursor s3.cursor (↑H) (List.drop s2.top hs) s2.top ah2 cs0 = cs1 at hH1 ⊢
+      have hFc : ∀ c ∈ cs1, c.height + 1 ≤ F := fun c hc => hFh _ (List.mem_of_getElem? (hH1 c hc))
       -- totalHeight
       obtain ⟨ρ5, hth⟩ := th_exec R s3 cs1 ρ4 "" F [draw14, draw15, draw16, draw17]
       rw [hth]
       -- the gutter
-      obtain ⟨ρ6, us6, hgu, hus6⟩ := gu_exec R s3 cs1 ρ5 "" F hRdc
+      obtain ⟨ρ6, us6, hgu, hus6⟩ := gu_exec R s3 cs1 ρ5 "" F (usub s3.cursor s3.top) (toUintI_sub' _ _) (by rw [hH]; exact hFH) hFc
       rw [seqOf_cons, hgu, gutter_ok]
       simp only []
       -- the wants-cursor block
